@@ -103,26 +103,35 @@ func runPortfolio(file string, timeoutS int, needAll bool) solveResult {
 }
 
 // solveObligations renders and discharges obligations (used by the dev command).
-func (e *Engine) solveObligations(obls []*Obligation, axioms, assumes []*Term, dir string, timeoutS int, par int, needAll bool) {
-	e.renderScripts(obls, axioms, assumes)
+func (e *Engine) solveObligations(obls []*Obligation, axioms, assumes, assumePCs []*Term, dir string, timeoutS int, par int, needAll bool) {
+	e.renderScripts(obls, axioms, assumes, assumePCs)
 	e.runScripts(obls, dir, timeoutS, make(chan struct{}, par), needAll)
 }
 
 // renderScripts builds the SMT-LIB text of every obligation (sequential: the
 // term tables are not thread safe).
-func (e *Engine) renderScripts(obls []*Obligation, axioms, assumes []*Term) {
+func (e *Engine) renderScripts(obls []*Obligation, axioms, assumes, assumePCs []*Term) {
 	for _, o := range obls {
 		if o.Status == "static" {
 			continue
 		}
 		var asserts []*Term
 		asserts = append(asserts, axioms...)
-		asserts = append(asserts, assumes[:o.NAssum]...)
+		nb := len(axioms)
+		for i := 0; i < o.NAssum; i++ {
+			// facts assumed on paths that exclude this obligation's path are irrelevant
+			if i < len(assumePCs) && And(o.PC, assumePCs[i]).IsFalse() {
+				continue
+			}
+			asserts = append(asserts, assumes[i])
+			nb++
+		}
 		asserts = append(asserts, o.PC)
 		if !o.Cover {
 			asserts = append(asserts, Not(o.Goal))
 		}
-		asserts = pruneAsserts(asserts, len(axioms)+o.NAssum)
+		fullAsserts := asserts
+		asserts = pruneAsserts(asserts, nb)
 		syms := map[string]bool{}
 		seenT := map[int]bool{}
 		for _, a := range asserts {
@@ -141,6 +150,13 @@ func (e *Engine) renderScripts(obls []*Obligation, axioms, assumes []*Term) {
 		s := Script(asserts, true, mterms)
 		s += "(get-model)\n"
 		o.script = s
+		if len(asserts) < len(fullAsserts)-3 && !o.Cover {
+			// fallback without relevance pruning (the pruned query can only lose proofs)
+			if syms["uf:elemIndex"] {
+				fullAsserts = append([]*Term{ElemIndexAxiom()}, fullAsserts...)
+			}
+			o.scriptFull = Script(fullAsserts, true, mterms) + "(get-model)\n"
+		}
 		o.SMTLen = len(s)
 		// abstraction variant: large string concatenations that occur more than
 		// once are replaced by fresh constants.  Forgetting their structure can
@@ -195,6 +211,9 @@ func (e *Engine) runScripts(obls []*Obligation, dir string, timeoutS int, pool c
 			if o.Cover && tmo > 6 {
 				tmo = 6
 			}
+			if o.knownFinding && tmo > 10 {
+				tmo = 10 // a recorded finding is expected not to discharge
+			}
 			// the abstraction variant (if any) is tried first with a short budget:
 			// where it applies it answers at once
 			var r solveResult
@@ -209,7 +228,21 @@ func (e *Engine) runScripts(obls []*Obligation, dir string, timeoutS int, pool c
 				}
 			}
 			if !doneAbs {
-				r = runPortfolio(f, tmo, needAll && !o.Cover)
+				if o.scriptFull != "" {
+					// pruned query first with a third of the budget, then the full one
+					r = runPortfolio(f, tmo/3+1, false)
+					if r.status != "unsat" {
+						ff := filepath.Join(dir, name+".full.smt2")
+						os.WriteFile(ff, []byte("; unpruned variant of "+o.ID+"\n"+o.scriptFull), 0o644)
+						r2 := runPortfolio(ff, tmo, needAll && !o.Cover)
+						r2.secs += r.secs
+						if r2.status == "unsat" || r2.status == "sat" || r.status != "sat" {
+							r = r2
+						}
+					}
+				} else {
+					r = runPortfolio(f, tmo, needAll && !o.Cover)
+				}
 			}
 			if r.status != "unsat" && r.status != "sat" && o.scriptQF != "" {
 				f2 := filepath.Join(dir, name+".qf.smt2")
@@ -237,6 +270,7 @@ func (e *Engine) runScripts(obls []*Obligation, dir string, timeoutS int, pool c
 			o.script = ""
 			o.scriptQF = ""
 			o.scriptAbs = ""
+			o.scriptFull = ""
 			mu.Unlock()
 		}()
 	}
@@ -246,22 +280,80 @@ func (e *Engine) runScripts(obls []*Obligation, dir string, timeoutS int, pool c
 // pruneAsserts keeps the goal part and those background facts that are
 // connected to it through shared symbols (cone of influence).  Dropping a
 // background fact can only make a proof fail, never succeed wrongly.
-func pruneAsserts(asserts []*Term, nBackground int) []*Term {
-	goalSyms := map[string]bool{}
+func connecting(sym string) bool {
+	// function symbols and allocation counters occur almost everywhere; they
+	// do not make two facts relevant to each other
+	if strings.HasPrefix(sym, "uf:") || sym == "A0" || strings.HasPrefix(sym, "alloc!") || strings.HasPrefix(sym, "allocj!") || strings.HasPrefix(sym, "hv:G:alloc!") {
+		return false
+	}
+	return true
+}
+
+// anchors of a term: its ground applications of uninterpreted functions and
+// array reads.  Two facts are relevant to each other if they talk about a
+// common such term (much finer than sharing a symbol: every heap read
+// mentions the same component symbol).
+var anchorMemo = map[int][]int{}
+
+func anchorsOf(t *Term) []int {
+	if a, ok := anchorMemo[t.id]; ok {
+		return a
+	}
+	set := map[int]bool{}
 	seen := map[int]bool{}
+	var walk func(x *Term)
+	walk = func(x *Term) {
+		if seen[x.id] {
+			return
+		}
+		seen[x.id] = true
+		if !x.hasBound && (x.Op == "select" || strings.HasPrefix(x.Op, "uf:")) {
+			set[x.id] = true
+		}
+		for _, a := range x.Args {
+			walk(a)
+		}
+	}
+	walk(t)
+	out := make([]int, 0, len(set))
+	for id := range set {
+		out = append(out, id)
+	}
+	anchorMemo[t.id] = out
+	return out
+}
+
+func pruneAsserts(asserts []*Term, nBackground int) []*Term {
+	cone := map[int]bool{}
+	coneSyms := map[string]bool{}
+	seenS := map[int]bool{}
 	for _, a := range asserts[nBackground:] {
-		Symbols(a, goalSyms, seen)
+		for _, id := range anchorsOf(a) {
+			cone[id] = true
+		}
+		Symbols(a, coneSyms, seenS)
 	}
 	type bg struct {
-		t    *Term
-		syms map[string]bool
-		in   bool
+		t       *Term
+		anchors []int
+		quant   bool
+		syms    map[string]bool
+		in      bool
 	}
+	qmemo := map[int]bool{}
 	bgs := make([]*bg, nBackground)
 	for i := 0; i < nBackground; i++ {
-		s := map[string]bool{}
-		Symbols(asserts[i], s, map[int]bool{})
-		bgs[i] = &bg{t: asserts[i], syms: s}
+		b := &bg{t: asserts[i], anchors: anchorsOf(asserts[i]), quant: hasQuant(asserts[i], qmemo)}
+		if b.quant || len(b.anchors) == 0 {
+			b.syms = map[string]bool{}
+			Symbols(asserts[i], b.syms, map[int]bool{})
+			for k := range b.syms {
+				if !connecting(k) {
+					delete(b.syms, k)
+				}
+			}
+		}
+		bgs[i] = b
 	}
 	changed := true
 	for changed {
@@ -270,19 +362,34 @@ func pruneAsserts(asserts []*Term, nBackground int) []*Term {
 			if b.in {
 				continue
 			}
-			hit := len(b.syms) == 0
-			for s := range b.syms {
-				if goalSyms[s] {
+			hit := false
+			for _, id := range b.anchors {
+				if cone[id] {
 					hit = true
 					break
 				}
 			}
+			if !hit && b.syms != nil {
+				if len(b.syms) == 0 && len(b.anchors) == 0 {
+					hit = true
+				}
+				for s := range b.syms {
+					if coneSyms[s] {
+						hit = true
+						break
+					}
+				}
+			}
 			if hit {
 				b.in = true
-				changed = true
-				for s := range b.syms {
-					goalSyms[s] = true
+				if b.quant {
+					continue // quantified facts are included but do not widen the cone
 				}
+				changed = true
+				for _, id := range b.anchors {
+					cone[id] = true
+				}
+				Symbols(b.t, coneSyms, seenS)
 			}
 		}
 	}
